@@ -112,9 +112,77 @@ def check(ctx):
                          replay={"call": "_check_dataset", "disp_shape": a, "forces_shape": b, "impl": x, "model": y}, has_input=True)
     try_coq(ctx, "C16/corr/check_dataset/model", corr_ds)
 
+    shape_routes(ctx, np.random.default_rng(ctx.seed + 5))
     # ---- histories (Api.v when it builds, its Python port otherwise)
     n_hist, length = (14, 7) if ctx.quick else (80, 9)
     bad = run_histories(ctx, "C16", n_hist, length, rng, tag=ctx.tier, use_coq=ctx.coq_ok)
     for b in bad[:10]:
         ctx.fail("correspondence", "C16/corr/history", f"history {b.get('history')} step {b.get('step')}: {b['what']}", replay=b,
                  has_input=not b.get("no_input", False))
+
+
+def shape_routes(ctx, rng):
+    """Every kind of mis-shaped dataset through every route by which a dataset reaches an object (constructor, property
+    setters, setter after a valid dataset), followed by solve() and run(): an exception, and the stored force constants of
+    an object that already holds results stay as they were."""
+    from gens import atoms_of, base_cells, make_supercell
+    from symfc import Symfc
+
+    sc = make_supercell(base_cells()["mono_P"], (1, 1, 1))
+    at = atoms_of(sc)
+    N = len(sc["numbers"])
+    n = 12
+    d0 = rng.normal(size=(n, N, 3)) * 0.05
+    f0 = rng.normal(size=(n, N, 3))
+    base = Symfc(at, displacements=d0, forces=f0).run(orders=[2])
+    ref = {k: np.array(v) for k, v in base.force_constants.items()}
+    basis = dict(base.basis_set)
+    good = rng.normal(size=(n, N, 3))
+    kinds = {
+        "flat rows (n, 3N)": good.reshape(n, 3 * N),
+        "trailing axis (n, N, 3, 1)": good.reshape(n, N, 3, 1),
+        "axes swapped (n, 3, N)": np.ascontiguousarray(good.transpose(0, 2, 1)),
+        "six components (n, N, 6)": rng.normal(size=(n, N, 6)),
+        "atoms halved (2n, N/2, 3)": good.reshape(2 * n, N // 2, 3) if N % 2 == 0 else None,
+        "atoms doubled (n/2, 2N, 3)": good.reshape(n // 2, 2 * N, 3),
+        "rank 1": good.reshape(-1),
+        "fewer snapshots (n-1, N, 3)": good[:-1],
+        "two components (n, N, 2)": good[:, :, :2].copy(),
+        "extra atom (n, N+1, 3)": rng.normal(size=(n, N + 1, 3)),
+    }
+    for kname, bad in kinds.items():
+        if bad is None:
+            continue
+        for which in ("displacements", "forces"):
+            for route in ("constructor", "setters", "setter-after-valid"):
+                for call in ("solve", "run"):
+                    ctx.case({"shape_route": kname, "array": which, "route": route, "call": call}, nontrivial=True)
+                    ctx.count("shape-route:" + route)
+                    dd, ff = (bad, f0) if which == "displacements" else (d0, bad)
+                    raised = None
+                    try:
+                        if route == "constructor":
+                            o = Symfc(at, displacements=dd, forces=ff)
+                        elif route == "setters":
+                            o = Symfc(at)
+                            o.displacements = dd
+                            o.forces = ff
+                        else:
+                            o = Symfc(at, displacements=d0, forces=f0)
+                            setattr(o, which, bad)
+                        o.basis_set = dict(basis)
+                        o._force_constants = {k: v.copy() for k, v in ref.items()}     # an object that already holds results
+                        if call == "solve":
+                            o.solve(orders=[2])
+                        else:
+                            o.run(orders=[2])
+                    except Exception as e:  # noqa: BLE001
+                        raised = e
+                    rep = {"kind": kname, "array": which, "route": route, "call": call, "shape": list(np.shape(bad)), "N": N, "n_snapshots": n}
+                    if raised is None:
+                        ctx.fail("oracle", "C16/oracle/shape-route", f"a dataset whose {which} have shape {np.shape(bad)} ({kname}) given through the {route} is accepted by {call}()", replay=rep, has_input=True)
+                        continue
+                    fc = getattr(o, "_force_constants", None) if "o" in dir() else None
+                    if route != "constructor" or fc is not None:
+                        if fc is None or set(fc) != set(ref) or any(not np.array_equal(fc[k], ref[k]) for k in ref):
+                            ctx.fail("oracle", "C16/oracle/shape-route", f"{call}() rejected {which} of shape {np.shape(bad)} ({kname}, {route}) but the stored force constants changed", replay=rep, has_input=True)
